@@ -91,6 +91,22 @@ void AsmContext::init()
   list_output = list_output_msp430;
   cpu_list_index = -1;
 
+  // Everything else that a CPU or segment directive selects also goes
+  // back to its default so pass 2 starts in the same state as pass 1 did.
+  parse_directive        = nullptr;
+  cpu_type               = CPU_TYPE_MSP430;
+  memory.endian          = ENDIAN_LITTLE;
+  segment                = SEGMENT_CODE;
+  is_dollar_hex          = false;
+  strings_have_dots      = false;
+  strings_have_slashes   = false;
+  can_tick_end_string    = false;
+  numbers_dont_have_dots = false;
+  pass_1_write_disable   = false;
+  ignore_number_postfix  = false;
+  msp430_cpu4            = false;
+  flags                  = 0;
+
   address           = 0;
   instruction_count = 0;
   code_count        = 0;
